@@ -187,3 +187,20 @@ Theorem dry_run_indexer_silent : forall e v pl k,
     (ix_events v (f_pre (entry_facts e) ++ f_post (entry_facts e)) pl ++ repeat IxFinalize k) = 0%N.
 Proof. exact dry_run_indexer_silent_lemma. Qed.
 Print Assumptions dry_run_indexer_silent.
+
+(* The dry-run flag on its way from the entry point to the place that tests it: at every call of an
+   inlined callee that takes `opts` or `dry_run` (backup -> archive on each of its three branches,
+   rewrite* -> process_snapshots, repair_hotcold* -> correct_missing_files) the value handed over is
+   the entry's own flag - `opts` passed on, cloned, or rebuilt with `dry_run` carried over; a rebuilt
+   option struct that takes dry_run from Default loses the condition in the table (and breaks
+   dry_run_commands_no_effect as well). *)
+Theorem dry_flag_flows_unchanged : forallb snd dry_flag_flow = true.
+Proof. exact dry_flag_flows_unchanged_lemma. Qed.
+Print Assumptions dry_flag_flows_unchanged.
+
+(* TreeModifier / Rewriter (blob/tree/modify.rs, rewrite.rs): packer.add under !self.dry_run, finalize
+   body under `if !self.dry_run`, the flag stored by new and handed on by Rewriter::new, no other write -
+   the dry-run condition of their constructor sites in the table rests on this. *)
+Theorem tree_modifier_writes_dry_guarded : tree_modifier_dry_guarded = true.
+Proof. exact tree_modifier_writes_dry_guarded_lemma. Qed.
+Print Assumptions tree_modifier_writes_dry_guarded.
